@@ -31,7 +31,7 @@ template <typename T> struct Val;
 template <> struct Val<int> { static int make(int k) { return k; } static std::string show(const int& v) { return std::to_string(v); } };
 template <> struct Val<std::size_t> { static std::size_t make(int k) { return (std::size_t)k; } static std::string show(const std::size_t& v) { return std::to_string(v); } };
 template <> struct Val<bool> { static bool make(int k) { return k % 2; } static std::string show(const bool& v) { return v ? "1" : "0"; } };
-template <> struct Val<double> { static double make(int k) { return k; } static std::string show(const double& v) { return std::to_string((int)v); } };
+template <> struct Val<double> { static double make(int k) { return k + 0.25; } static std::string show(const double& v) { return std::to_string((long)(v * 4)) + "/4"; } };
 template <> struct Val<std::string> { static std::string make(int k) { return "s" + std::to_string(k); } static std::string show(const std::string& v) { return v; } };
 template <> struct Val<Sub::MyLongNamedType> { static Sub::MyLongNamedType make(int k) { return {k}; } static std::string show(const Sub::MyLongNamedType& v) { return "L" + std::to_string(v.v); } };
 template <> struct Val<::My::Data<int>> { static ::My::Data<int> make(int k) { return {k}; } static std::string show(const ::My::Data<int>& v) { return "D" + std::to_string(v.v); } };
